@@ -4,6 +4,7 @@ package store
 
 import (
 	"github.com/ipld/go-storethehash/store/freelist"
+	mhprimary "github.com/ipld/go-storethehash/store/primary/multihash"
 )
 
 // VerifFreeList returns the store's freelist.
@@ -31,4 +32,13 @@ func (s *Store) VerifHasFlushNotice() bool {
 	s.rateLk.Lock()
 	defer s.rateLk.Unlock()
 	return s.flushNotice != nil
+}
+
+// VerifAttachGC attaches a primary garbage collector without its background
+// goroutine (see MultihashPrimary.VerifNewGC), wired to the index the same way
+// OpenStore wires the real one.
+func (s *Store) VerifAttachGC() {
+	if mp, ok := s.index.Primary.(*mhprimary.MultihashPrimary); ok && mp != nil {
+		mp.VerifNewGC(s.freelist, s.index.Relocate)
+	}
 }
